@@ -203,7 +203,7 @@ func cmdRun(args []string) int {
 			"path_bound_per_harness":        ec.MaxPaths,
 			"ssa_step_bound_per_path":       ec.Opt.MaxSteps,
 			"solver_timeout_ms":             ec.TimeoutMs,
-			"sizes":                         "stated in each harness header comment and DESIGN.md §3/§4 (vfRange / vfChoose bounds, scaled by the tier); *AtScale / SlowReplies harnesses add sizes and latencies just beyond every integer (4..1024) / time.Duration (1 ms..10 s) constant that the functions under test compare with or mention in the CURRENT source (DESIGN.md §2.13)",
+			"sizes":                         "stated in each harness header comment and DESIGN.md §3/§4 (vfRange / vfChoose bounds, scaled by the tier); *AtScale / SlowReplies harnesses add sizes and latencies just beyond every integer (4..300) / time.Duration (1 ms..10 s) constant that the functions under test compare with or mention in the CURRENT source (DESIGN.md §2.13)",
 			"cvc5_cross_check_pct_of_unsat": ec.Opt.CrossPct,
 		}
 		sums, st := gosym.Explore(p, entries, ec)
